@@ -1195,3 +1195,10 @@ M("C18-weeding-ignores-lower-boundary", "C18", "src/dtoolbase/pdtoa.cxx",
 M("C18-benign-weeding-condition-order", "C18", "src/dtoolbase/pdtoa.cxx",
   "  while (rest < wp_w && delta - rest >= ten_kappa &&", "  while (delta - rest >= ten_kappa && rest < wp_w &&",
   benign=True)
+
+M("C05-public-virtual-base-recorded-nonvirtual", "C05", "src/cppparser/cppBison.yxx",
+  "        | KW_PUBLIC KW_VIRTUAL class_derivation_name\n{\n  current_struct->append_derivation($3, V_public, true);", "        | KW_PUBLIC KW_VIRTUAL class_derivation_name\n{\n  current_struct->append_derivation($3, V_public, false);",
+  expect="R05.8|base_specification|KW_PUBLIC_KW_VIRTUAL")
+M("C05-virtual-base-without-access-rejected", "C05", "src/cppparser/cppBison.yxx",
+  "        | KW_VIRTUAL class_derivation_name\n{\n  current_struct->append_derivation($2, V_unknown, true);\n}\n", "",
+  expect="R05.8|base_specification|covers|virtual+V_unknown")
